@@ -21,13 +21,24 @@ README_CONTRACT = [
 PROCESSING_CALLS = ('process_event', 'step')
 
 
+def is_processing_call(c: Ctx, u: Unit, call: ast.Call) -> bool:
+    """process_event / step, or a call of any bus method that reaches process_event (a new merged helper such as `step_nowait()`)."""
+    if call_name(call) in PROCESSING_CALLS:
+        return True
+    r = c.an.fm.resolve_call(call, u)
+    if isinstance(r, Unit) and r.cls == 'EventBus':
+        pe = c.unit(SVC, 'EventBus.process_event')
+        return pe.key in c.cg.reach([r])
+    return False
+
+
 @ob('C05.1', 'FLOW', 'the event handed to process_event by the in-handler inline loop is the awaited event itself, or is filtered by a test relating it to the awaited event '
     '(same event / descendant); otherwise unrelated events queued earlier run first, inside the awaiting handler')
 def c05_1(c: Ctx) -> None:
     u = await_coro(c)
     br = inline_branch(c, u)
     self_ = c.unit(MOD, 'BaseEvent.__await__').params()[0]
-    calls = [n for n in own_nodes(u.node) if isinstance(n, ast.Call) and call_name(n) in PROCESSING_CALLS and q.lexically_in(n, br, 'body')]
+    calls = [n for n in own_nodes(u.node) if isinstance(n, ast.Call) and is_processing_call(c, u, n) and q.lexically_in(n, br, 'body')]
     c.floor(len(calls), 1, 'process_event calls on the inline branch')
     c.note('documented contract: ' + ' / '.join(README_CONTRACT))
     for call in calls:
@@ -89,7 +100,7 @@ def c05_2(c: Ctx) -> None:
     br = inline_branch(c, u)
     aws = inline_awaits(c, u, br)
     sleeps = [a for a in aws if is_sleep0(a)]
-    procs = [a for a in aws if isinstance(a.value, ast.Call) and call_name(a.value) in PROCESSING_CALLS]
+    procs = [a for a in aws if isinstance(a.value, ast.Call) and is_processing_call(c, u, a.value)]
     c.floor(len(procs), 1, 'inline process_event awaits')
     if not sleeps:
         c.ok(where(u, br), 'inline branch never yields to the event loop')
@@ -150,7 +161,7 @@ def check_no_inline_processing_after_completion(c: Ctx) -> None:
     g = c.cfg(u)
     br = inline_branch(c, u)
     self_ = c.unit(MOD, 'BaseEvent.__await__').params()[0]
-    procs = [a for a in inline_awaits(c, u, br) if isinstance(a.value, ast.Call) and call_name(a.value) in PROCESSING_CALLS]
+    procs = [a for a in inline_awaits(c, u, br) if isinstance(a.value, ast.Call) and is_processing_call(c, u, a.value)]
     c.floor(len(procs), 1, 'inline process_event awaits')
     atom = f'{self_}.event_completed_signal.is_set()'
     facts = Facts(lambda a: a == atom, cg=c.cg, unit=u)
